@@ -19,7 +19,7 @@ theorem toDb_tsDist (d : LokiDb) (c : Ctx) (hn : c.namesOk) : d.toDb c c.tsDistT
   simp [LokiDb.toDb, Ne.symm h3, Ne.symm h5]
 
 /-! ### columns of an index row -/
-@[simp] theorem gin_date (g : GinRow) : Row.get g.row "date" = .str g.date := by simp [Row.get, GinRow.row, List.lookup]
+@[simp] theorem gin_date (g : GinRow) : Row.get g.row "date" = .str g.date := by simp [Row.get, GinRow.row]
 @[simp] theorem gin_key (g : GinRow) : Row.get g.row "key" = .str g.key := by simp [Row.get, GinRow.row, List.lookup]
 @[simp] theorem gin_val (g : GinRow) : Row.get g.row "val" = .str g.val := by simp [Row.get, GinRow.row, List.lookup]
 @[simp] theorem gin_type (g : GinRow) : Row.get g.row "type" = .int g.tp := by simp [Row.get, GinRow.row, List.lookup]
